@@ -958,8 +958,23 @@ def sum_term(n, body, real=True):
     probe = body(CTX.fresh('jz', 'int'))
     if is_conc(probe) and probe == 0:
         return 0
+    # congruence: same length term and syntactically the same body at a shared probe index -> same constant
+    memo = CTX.sqrt_terms.setdefault('sum_memo', {})
+    key = None
+    try:
+        pv = body(Sym(z3.Int('sum!probe'), 'int'))
+        if isinstance(pv, Sym):
+            nt = Sym.lift(n).t
+            key = (nt.hash(), pv.t.hash())
+            for (nt0, pt0, s0) in memo.get(key, ()):
+                if nt0.eq(nt) and pt0.eq(pv.t):
+                    return s0
+    except (Unsupported, PyRaise):
+        key = None
     s = CTX.fresh('Sum', 'real')
     CTX.sums.append((s, n, body))
+    if key is not None:
+        memo.setdefault(key, []).append((nt, pv.t, s))
     return s
 
 
@@ -2039,11 +2054,20 @@ def sigma_clip(interp, data, **kw):
     """Trusted: returns (masked=False) a 1-D array of a subset of the input's elements."""
     data = _as_arr(data)
     flat = A.reshape(data, (data.size(),)) if data.ndim != 1 else data
-    n = CTX.fresh('nclip', 'int')
-    CTX.side.append(And(n >= 0, n <= flat.shape[0], Implies(Sym.lift(flat.shape[0]) >= 1, n >= 1)).t)
-    CTX.counter += 1
-    sel = z3.Function(f"clipsel!{CTX.counter}", z3.IntSort(), z3.IntSort())
     snap = flat._snapshot()
+    # congruence: a deterministic function of its input - syntactically equal inputs get the same selection
+    probe = Sym(z3.Int('clip!probe'), 'int')
+    pv = snap((probe,))
+    key = (str(Sym.lift(flat.shape[0]).t), str(pv.t) if isinstance(pv, Sym) else repr(pv), repr(sorted(kw.items(), key=str)))
+    memo = interp.__dict__.setdefault('sigma_clip_memo', {})
+    if key in memo:
+        n, sel = memo[key]
+    else:
+        n = CTX.fresh('nclip', 'int')
+        CTX.side.append(And(n >= 0, n <= flat.shape[0], Implies(Sym.lift(flat.shape[0]) >= 1, n >= 1)).t)
+        CTX.counter += 1
+        sel = z3.Function(f"clipsel!{CTX.counter}", z3.IntSort(), z3.IntSort())
+        memo[key] = (n, sel)
 
     def fn(idx):
         j = Sym(sel(Sym.lift(idx[0]).as_int()), 'int')
